@@ -776,6 +776,10 @@ int mpq_EGlpNumReadStrXc (mpq_t var,
 			a_sgn = 0;
 			a_exp = 0;
 			a_exp_sgn = 1;
+			/* an exponent is an integer: a dot after it ends the number (it used
+			 * to be skipped when the mantissa had none, "1e-02.00500" was read
+			 * with the exponent -200500) */
+			a_dot = 0;
 			break;
 		case '/':
 			if (exp_sgn)
